@@ -132,6 +132,8 @@ class C06(CheckBase):
             f.append("shape:" + plan["label"].rsplit("-", 1)[0])
         if open_remark_at_eof(text):
             f.append("eof-inside-remark")
+        if max(len(seg) for seg in text.split(";")) > 100000 and not any(len(w) > 20000 for w in _re.findall(r"[A-Za-z_][A-Za-z0-9_]*|'[^']*'|\"[^\"]*\"|%[01]+|\(\*.*?\*\)", text, _re.S)):
+            f.append("huge-statement")           # one declaration or statement of more than 100000 characters made of many small tokens
         return f
 
     def sample(self, plan, obs):
